@@ -269,6 +269,11 @@ func TestC05(t *testing.T) {
 		jr.begin("C05", "roundtrip", c)
 		err := checkC05(c)
 		jr.end()
+		if err != nil && strings.HasPrefix(err.Error(), "harness:") {
+			// the program itself is not accepted: that is C02's business
+			st.Class("skipped_source_not_accepted")
+			return
+		}
 		if err != nil {
 			fail(tt, "C05", "roundtrip", c, "%v", err)
 		}
@@ -335,6 +340,11 @@ func TestC18(t *testing.T) {
 		jr.begin("C18", "normalform", c)
 		faults, err := checkC18(c)
 		jr.end()
+		if err != nil && strings.HasPrefix(err.Error(), "harness:") {
+			// the program itself is not accepted: that is C02's business
+			st.Class("skipped_source_not_accepted")
+			return
+		}
 		if err != nil {
 			fail(tt, "C18", "normalform", c, "%v", err)
 		}
